@@ -45,7 +45,9 @@ var palette = []string{"eth1", "eth10", "eth1/1"}
 // palettes: the default one and key values of which two pairs read the same once joined ([x.y, x] / [x, y.x])
 var palettes = [][]string{{"eth1", "eth10", "eth1/1"}, {"a", "a b", "b a"}, {"a", "a/b", "b/a"}, {"a", "a_b", "b_a"},
 	// values with ':' (IPv6 / MAC addresses, interface names): not module prefixes
-	{"x:y", "fe80::1", "y"}}
+	{"x:y", "fe80::1", "y"},
+	// characters with a meaning in regular expressions and path syntax
+	{"[z]", "k=v", "c.d"}, {"a+b", "aab", "a(b|c)"}}
 
 type UpdSel struct {
 	Leaf vlib.LeafSel `json:"leaf"`
@@ -206,7 +208,7 @@ var prop = vlib.Prop[*Case]{
 		} else {
 			c.Script = genMsgs(t)
 		}
-		c.Pal = rapid.SampledFrom([]int{0, 0, 0, 0, 0, 1, 2, 3, 4, 4}).Draw(t, "palette")
+		c.Pal = rapid.SampledFrom([]int{0, 0, 0, 0, 0, 1, 2, 3, 4, 4, 5, 6}).Draw(t, "palette")
 		if c.Pal > 0 && c.Pal < 4 && c.Dev == nil && rapid.Bool().Draw(t, "colliding-entries") {
 			// one notification carrying both entries of the two-key list (template 15 = plain/l2a/v)
 			m := Msg{Kind: "notif", Updates: []UpdSel{
